@@ -90,6 +90,10 @@ class Kernel:
         self.failed = None          # harness error text
         self.finished = threading.Event()
         self.over = False           # set when the attempt is over (finished or killed): late writes are dropped
+        self.trace_files = ()       # file names of the code under test (line events there are counted)
+        self.line_budget = 500_000
+        self.lines = 0
+        self.line_budget_exceeded = False
         self._lock = threading.Lock()
 
     # ---- tasks ----
@@ -101,11 +105,36 @@ class Kernel:
         th.start()
         return t
 
+    def _tracer(self):
+        """Deterministic 'does not terminate' detector: count line events executed in the code under test."""
+        files = self.trace_files
+        kernel = self
+
+        def local(frame, event, arg):
+            if event == 'line':
+                kernel.lines += 1
+                if kernel.lines > kernel.line_budget:
+                    kernel.line_budget_exceeded = True
+                    kernel.kill_context = 'line budget exceeded in %s:%d' % (frame.f_code.co_name, frame.f_lineno)
+                    kernel.kill_step = kernel.step
+                    kernel._kill_all()
+                    raise SimKilled()
+            return local
+
+        def tracer(frame, event, arg):
+            if event == 'call' and frame.f_code.co_filename in files:
+                return local
+            return None
+        return tracer
+
     def _task_main(self, t):
         t.sem.acquire()
         try:
             if self.killed or self.failed:
                 raise SimKilled()
+            if self.trace_files:
+                import sys
+                sys.settrace(self._tracer())
             t.result = t.fn()
         except SimKilled:
             t.exc = 'killed'
